@@ -634,4 +634,47 @@ theorem validNameLegacy_head (d : List Char) : (validNameLegacy d).head? ≠ som
   have := stripBoth_head isSpaceDash _ SPACE h
   simp [isSpaceDash] at this
 
+/-! ## the sanitisers see a display name only through "is the symbol in `[A-Za-z0-9-]`" -/
+
+theorem subInvalidAux_map (f : Char → Char) (hf1 : ∀ c, okChar c = true → f c = c)
+    (hf2 : ∀ c, okChar c = false → okChar (f c) = false) (b : Bool) (s : List Char) :
+    subInvalidAux b (s.map f) = subInvalidAux b s := by
+  induction s generalizing b with
+  | nil => rfl
+  | cons c cs ih =>
+    simp only [List.map_cons, subInvalidAux]
+    cases h : okChar c
+    · simp only [hf2 c h, Bool.false_eq_true, if_false]
+      cases b <;> simp [ih]
+    · simp only [hf1 c h, h, if_true, ih]
+
+theorem subInvalid_map (f : Char → Char) (hf1 : ∀ c, okChar c = true → f c = c)
+    (hf2 : ∀ c, okChar c = false → okChar (f c) = false) (s : List Char) :
+    subInvalid (s.map f) = subInvalid s :=
+  subInvalidAux_map f hf1 hf2 false s
+
+/-! ## decidable forms of the specification-side predicates (run by the driver against the
+    independent Python validators `harness/ref/dnslabel.py`) -/
+
+instance (l : List Char) : Decidable (ValidInstanceLabel l) := by
+  unfold ValidInstanceLabel; exact inferInstance
+
+instance (l : List Char) : Decidable (ValidHostLabel l) := by
+  unfold ValidHostLabel; exact inferInstance
+
+/-- what the label theorems need of a MAC: its last eight characters hold, besides colons,
+    exactly six hexadecimal digits (true of every `XX:XX:XX:XX:XX:XX`, see `shortMac_wf`) -/
+def MacTailOk (mac : List Char) : Prop :=
+  (shortMac mac).length = 6 ∧ ∀ c ∈ shortMac mac, isHex c = true
+
+instance (mac : List Char) : Decidable (MacTailOk mac) := by
+  unfold MacTailOk; exact inferInstance
+
+/-- a pincode made of digits and dashes with at most eight digits (`xxx-xx-xxx`) -/
+def PinShape (pin : List Char) : Prop :=
+  (∀ c ∈ pin, c = '-' ∨ isDigit c = true) ∧ (pin.filter fun c => c ≠ '-').length ≤ 8
+
+instance (pin : List Char) : Decidable (PinShape pin) := by
+  unfold PinShape; exact inferInstance
+
 end Hap.Advert
